@@ -62,4 +62,16 @@ PROPS = {
         ],
         "assumptions": ["strings are ASCII byte strings; CHR$/non-ASCII strings are outside this property's model"],
     },
+    "C10": {
+        "coq_targets": ["theories/Expr/Proofs.vo", "theories/Expr/Literals.vo"],
+        "harness": ["c10"],
+        "tables": True,
+        "disagreement_is_violation": True,
+        "axioms": [],
+        "trusted_base": COMMON_TB + [
+            "translator for finite functions: harness/src/tables.rs evaluates Operator::precedence, ExpressionTrait::should_flip_binary (13x13) and should_flip_unary (2x13) of the current /repo tree on their whole domains and prints Generated/Tables.v; the theorems are re-proved over the regenerated tables on every run",
+            "modelled, not verified: binary_expr / flip_binary / apply_unary_priority_order of rusty_parser/src/expr/types.rs (positions dropped), the right-recursive chain grammar of binary_expression.rs / unary_expression.rs, process_dec / process_hex / process_oct, BitVec::convert_to_int_or_long_expr, Expression::unary_minus; str::parse::<u32>/<f64> are Rust std",
+        ],
+        "assumptions": ["the expression grammar feeds the repair functions exactly the right-recursive chain structure of Expr/Tree.v (checked by correspondence on every generated expression)"],
+    },
 }
